@@ -39,6 +39,7 @@ func control() {
 }
 
 func main() {
+	hist.InitDone() // package initialisation is over: see hist/memwatch.go
 	seed := flag.Int64("seed", 1, "seed of the job sets")
 	tier := flag.String("tier", "quick", "quick | thorough")
 	reps := flag.Int("reps", 0, "goroutine runs per job set (0: 3 quick, 5 thorough)")
